@@ -747,6 +747,8 @@ class G:
         for _ in range(count):
             n = self.nzlen(8)
             mod = self.poly(n) | (r.choice([1, 1 << (W - 1), 1 << r.randrange(W)]) << ((n - 1) * W)) | 1
+            if mod == 1:
+                mod = 3                                          # deg(mod) >= 1: a, divident < mod must be satisfiable with divident = 1
             dm = mod.bit_length() - 1
             a = self.poly(n) % (1 << dm) if dm else 0
             b = self.poly(n) % (1 << dm) if dm else 0
@@ -1516,7 +1518,8 @@ def run(ctx):
                         ctx.violation(key_of(op), replay_text(cfg, op, c, "(agrees)", why), True,
                                       "[%s] %s -> %s : %s (model agrees with the implementation: model is wrong too)" % (cfg, op[:300], c[:200], why))
         if W == 64 and cfg == "asan":
-            ctx.samples += [{"op": lines[i][:200], "impl": c_out[i][:200]} for i in range(0, len(lines), max(1, len(lines) // 6))][:6]
+            k = min(len(lines), len(c_out))
+            ctx.samples += [{"op": lines[i][:200], "impl": c_out[i][:200]} for i in range(0, k, max(1, k // 6))][:6]
             ctx.cov["ops_by_function"] = dict(sorted(g.cov.items()))
             ctx.cov["distinct_nontrivial"] = len(set(zip((l.split(" ")[0] for l in lines), c_out)))
     ctx.cov["correspondence_disagreements"] = total_mism
